@@ -158,6 +158,8 @@ def gen_case(seed, run, tier):
             vk = rw.choice(cands)
             lo = math.log10(max(init[vk], 1e-7))
             op = {"op": "solve", "varied": {vk: [10 ** (lo + d) for d in sorted(rw.uniform(-1, 1) for _ in range(rw.choice([1, 2, 3])))]}}
+            if rw.random() < 0.35:
+                op["again"] = rw.choice(["plain", "plain", 0.1, 10.0])
             if len(cands) >= 2 and rw.random() < 0.3:
                 k1, k2 = rw.sample(cands, 2)
                 # two varied substances, given in the OPPOSITE of substance order
@@ -266,6 +268,7 @@ class Ctx(object):
         self.neqsys_cache = {}
         self.returned = []  # (array object handed back to the caller, copy of its values, names at that time)
         self.prev_choice = {}
+        self.rekeyed_ops = set()
 
     def neqsys(self, op):
         key = (op["chain"], bool(op.get("rref_equil")), bool(op.get("rref_preserv")))
@@ -359,9 +362,20 @@ def call_op(ctx, op, faults, reuse, eqsys=None):
                 es._solve = recording_solve
                 try:
                     res = es.solve(dict(zip(ctx.names, ctx.init)), varied=OrderedDict((k, list(v)) for k, v in op["varied"].items()))
+                    if op.get("again"):
+                        # the caller solves the SAME result object a second time (possibly after changing a constant):
+                        # what it reports afterwards must describe the second pass
+                        n_first = len(infos)
+                        if op["again"] != "plain" and op.get("_oi") not in ctx.rekeyed_ops:
+                            f = float(op["again"])
+                            es.rxns[0].param = es.rxns[0].param * f
+                            ctx.spec["eqs"][0]["K"] = ctx.spec["eqs"][0]["K"] * f
+                            ctx.rekeyed_ops.add(op.get("_oi"))
+                        res.solve()
+                        infos = infos[n_first:] if len(infos) >= 2 * n_first else [None] * n_first
                 finally:
                     del es.__dict__["_solve"]
-                own.extend(_own_residual(nfo, nr, scale) for nfo in infos)
+                own.extend((_own_residual(nfo, nr, scale) if nfo is not None else None) for nfo in infos)
                 # documented semantics: one axis per varied substance, axes in SUBSTANCE order
                 import itertools
 
@@ -492,8 +506,9 @@ def judge(ctx, op, rec, faults):
                                       {"op": "root", "chain": chain, "fault": last["fault"]}))
     elif op["op"] in ("roots", "solve") and npts and not ctx.spec["kind"].startswith("precip"):
         stages = 2 if op["op"] == "solve" else len(CHAINS.get(chain, ("x",)))
-        if len(rec["inv_log"]) == stages * npts and op.get("base_n_inv") == stages * npts:
-            for j, inv in enumerate(rec["inv_log"]):
+        passes = 2 if op.get("again") else 1
+        if len(rec["inv_log"]) == passes * stages * npts and op.get("base_n_inv") == passes * stages * npts:
+            for j, inv in enumerate(rec["inv_log"][(passes - 1) * stages * npts:]):
                 if j % stages == stages - 1 and inv.get("fired") and inv.get("fault") in NSV.FAILURE_KINDS + ("early_stop",):
                     if rec["points"][j // stages][2]:
                         out.append(core.violation(
